@@ -1274,6 +1274,12 @@ func (e *env) step(i int, p *plan) bool {
 		if d == nil {
 			d = new(big.Int)
 		}
+		if p.kind == "create-garbage" && a != sender {
+			// arbitrary init code: it may legitimately move its endowment anywhere (a random byte
+			// string that happens to SELFDESTRUCT or CALL towards a monitored address, e.g. 0x0);
+			// what other accounts receive from arbitrary code is C16's subject, not this property's
+			continue
+		}
 		if got := new(big.Int).Sub(post[a].bal, pre[a].bal); got.Cmp(d) != 0 {
 			return bad("balance-mismatch", "account %x balance %v -> %v (delta %v), model delta %v [status %d, to-kind %q]", a, pre[a].bal, post[a].bal, got, d, receipt.Status, toKind)
 		}
